@@ -185,6 +185,10 @@ func runRIDeadline(o optsJ, k int, rst bool, nsamples int, seed int64, deadline 
 		defer cancel()
 	}
 	r := retry.StartWithCtx(ctx, o.real(nil))
+	if deadline == 0 && (seed+int64(k))%2 == 0 {
+		// the context-less constructor must give the same loop (defaults included)
+		r = retry.Start(o.real(nil))
+	}
 	for i := 0; i < k; i++ {
 		r.NextCh()
 	}
